@@ -336,7 +336,7 @@ pub fn judge_c11(c: &mut Collector, ep: &EnginePos, board: &Board, tf: &ThreeFol
 }
 
 pub fn c11(c: &mut Collector, seed: u64, shard: u64, nshards: u64, thorough: bool, scale: f64) {
-    let n_random = ((if thorough { 400.0 } else { 36.0 }) * scale).max(2.0) as u64;
+    let n_random = ((if thorough { 600.0 } else { 110.0 }) * scale).max(2.0) as u64;
     let learn_budget: u64 = if thorough { 120_000 } else { 12_000 };
     let positions = engine_positions(seed, shard, nshards, n_random, false);
     let mut rng = Rng::new(mix3(seed, shard, 0xC11));
@@ -644,8 +644,8 @@ pub fn c12_one(c: &mut Collector, ep: &EnginePos, pi: usize, seed: u64, shard: u
 // ------------------------------------------------------------------------------------------ C13
 
 pub fn c13(c: &mut Collector, seed: u64, shard: u64, nshards: u64, thorough: bool, scale: f64) {
-    let n_random = ((if thorough { 3000.0 } else { 260.0 }) * scale).max(2.0) as u64;
-    let budget: u64 = if thorough { 300_000 } else { 40_000 };
+    let n_random = ((if thorough { 6000.0 } else { 1200.0 }) * scale).max(2.0) as u64;
+    let budget: u64 = if thorough { 300_000 } else { 60_000 };
     let positions = engine_positions(seed.wrapping_add(77), shard, nshards, n_random, false);
     for ep in positions.iter() {
         c13_one(c, ep, budget);
